@@ -610,7 +610,16 @@ pub(crate) fn run(opts: &Opts, report: &mut Report) {
                             bad.extend(oracle::judge_store(&sim, &case.chain));
                         }
                     }
+                    // what keeps a stalled run busy: filter hashes of the lying server's chain in
+                    // the cache (cached from a single peer below the next check point: the
+                    // recorded finding of the mutant pass), or something else
+                    let poisoned_cache = {
+                        let (cp_index, hashes) = sim.c().peers.get_cached_block_filter_hashes();
+                        let first = cp_index as u64 * 4 + 1;
+                        hashes.iter().enumerate().any(|(i, h)| case.chain.filter_hashes.get((first + i as u64) as usize).map(|t| t != h).unwrap_or(true))
+                    };
                     for (oc, v) in oracle::group(bad) {
+                        let oc = if oc == "stall" && poisoned_cache { "stall/tampered-cached-filter-hashes".to_owned() } else { oc };
                         report.violation(
                             format!("{}/consistent-liar", oc),
                             format!("[{}] the last {} of 3 peers serve empty filters and a matching hash chain from block {} on (honest check points), quorum {}: {}", liar_case.name, n_liars, from, (outbound + 1) / 2, v[0]),
